@@ -64,6 +64,10 @@ CHECKS = {
         'property-based round-trip testing: model -> pretty() -> compile -> structural + behavioural comparison -> pretty() fixpoint; models from compile, JSON reload and g2e (ANTLR) translation; railroads() completion',
         'Generated full-language grammars (special tokens/patterns/constants incl. multi-line, alerts, meta, $->, directives, keywords, parameters, based rules, decorators) and generated ANTLR grammars: the pretty text compiles, keeps rules/params/bases/decorators/directives/keywords, behaves the same on derived sentences and near misses, is a fixpoint, and railroads() completes. Exploration.',
         'parser equality is observed on generated inputs; "consistent track width" is observed as: railroads() completes (the renderer asserts the width of every track it assembles)', 'DESIGN.md §3 C13'),
+    'C14': (
+        'property-based round-trip testing: model -> {JSON, pickle, generated model source} -> reload -> structural + behavioural comparison; asjson() termination/dumpability on parse results, models and hand-built cyclic structures',
+        'C13\'s full-language grammars with loader-sniffing texts (f{..}, backslash-e-[, {..}, @.., __class__), falsy directive values, single keywords and single rules, reloaded through three routes: same rules/directives/keywords and equal outcomes on derived inputs; asjson() of every parse result/model returns within 5 s and json.dumps accepts it; cycles render as references. Exploration.',
+        'parser equality is observed on generated inputs; a constant whose value is None is not judged (indistinguishable from no literal in every serialised form)', 'DESIGN.md §3 C14'),
     'C16': (
         'exhaustive enumeration of small rule graphs + Hypothesis-sampled larger graphs against my own left-call-graph / nullability / cycle analysis; fixed input battery under a recursion limit and watchdog',
         'All 420 one-rule graphs and all 1764 two-rule single-alternative graphs (exhaustive), plus sampled 2x2, 3-rule and 4-6-rule graphs: GrammarError with left recursion off iff a left-call cycle exists; is_lrec/is_memo exact off-cycle; every cycle guarded; battery of 15 inputs from every rule terminates. Exploration with an exhaustive sub-space.',
